@@ -214,7 +214,15 @@ fn code_line(lang: &str, ident: &str, k: usize) -> String {
 
 /// Embed prose paragraphs into a source file of language `lang`.
 pub fn wrap(lang: &str, paras: &[String], rng: &mut Rng) -> String {
-    let nl = if rng.chance(1, 8) { "\r\n" } else { "\n" };
+    // (a lone "\r" - the classic Mac line end - is a line terminator for every LSP client; only the
+    // position-minded sessions use it, so that the other properties' sessions stay as they were)
+    let nl = if UNICODE_HEAVY.with(|u| u.get()) && rng.chance(1, 10) {
+        "\r"
+    } else if rng.chance(1, 8) {
+        "\r\n"
+    } else {
+        "\n"
+    };
     let trailing = rng.chance(2, 3);
     let mut out = String::new();
     match lang {
